@@ -98,6 +98,7 @@ impl Read for ScriptIo {
             RAns::Fail(k) => Err(k),
             RAns::Eof => Ok(0),
         };
+        stamp_now();
         self.log.borrow_mut().push(Ev::Read { requested: buf.len(), got: res.clone() });
         res.map_err(|k| io::Error::new(k, self.marker))
     }
@@ -122,6 +123,7 @@ impl Write for ScriptIo {
             Ok(n) => buf[..*n].to_vec(),
             Err(_) => vec![],
         };
+        stamp_now();
         self.log.borrow_mut().push(Ev::Write { offered: buf.len(), got: res.clone(), bytes: taken });
         res.map_err(|k| io::Error::new(k, self.marker))
     }
@@ -296,4 +298,87 @@ impl SerialDevice for ScriptPort {
     fn read_cd(&mut self) -> serial_core::Result<bool> {
         Ok(false)
     }
+}
+
+// ---------------------------------------------------------------------------------------------------------
+// Running messages through a real SerialSignBus over a ScriptPort, with virtual or real time.
+
+use flipdot_core::{Message, SignBus};
+use flipdot_serial::SerialSignBus;
+use std::time::Instant;
+
+/// What one `process_message` call did at the port, in order.
+#[derive(Debug, Clone)]
+pub struct Exchange {
+    pub result: Result<Option<Message<'static>>, String>,
+    pub panicked: Option<crate::util::Panicked>,
+    /// events of this call only (port writes/reads and pauses), in order
+    pub events: Vec<Ev>,
+    /// real-clock stamps (seconds since the start of the run) parallel to `events`; empty with the virtual clock
+    pub stamps: Vec<f64>,
+    pub returned_at: f64,
+    pub written: Vec<u8>,
+    pub tape_pos_after: usize,
+}
+
+pub struct SerialRun {
+    pub exchanges: Vec<Exchange>,
+    pub setup_ok: bool,
+}
+
+thread_local! {
+    static STAMPS: RefCell<Option<(Instant, Vec<f64>)>> = const { RefCell::new(None) };
+}
+
+/// Drives `msgs` through one SerialSignBus. `virtual_clock`: pauses are logged instead of slept.
+pub fn serial_run(msgs: &[Message<'static>], tape: Vec<u8>, rscript: Vec<RAns>, wscript: Vec<WAns>, at_end: RAns, virtual_clock: bool) -> SerialRun {
+    let log = new_log();
+    let mut sio = ScriptIo::new(tape, log.clone());
+    sio.rscript = rscript;
+    sio.wscript = wscript;
+    sio.at_end = at_end;
+    let io = Rc::new(RefCell::new(sio));
+    let port = ScriptPort::new(io.clone(), Line { baud: BaudRate::Baud9600, char_size: CharSize::Bits7, parity: Parity::ParityEven, stop_bits: StopBits::Stop2, flow: FlowControl::FlowHardware }, Duration::from_millis(1), None);
+    let mut bus = match SerialSignBus::try_new(port) {
+        Ok(b) => b,
+        Err(_) => return SerialRun { exchanges: vec![], setup_ok: false },
+    };
+    let t0 = Instant::now();
+    if virtual_clock {
+        let l2 = log.clone();
+        flipdot_serial::verif_hooks::set_handler(Some(Box::new(move |d| l2.borrow_mut().push(Ev::Sleep(d)))));
+    } else {
+        flipdot_serial::verif_hooks::set_handler(None);
+    }
+    let mut exchanges = vec![];
+    for m in msgs {
+        let ev_start = log.borrow().len();
+        let w_start = io.borrow().written.len();
+        // real clock: stamp events by polling the log length from inside the port is not possible; instead
+        // the port itself stamps through STAMP_HOOK below.
+        STAMPS.with(|s| *s.borrow_mut() = if virtual_clock { None } else { Some((t0, vec![])) });
+        let r = crate::util::catch(|| bus.process_message(m.clone()).map(|o| o.map(|x| crate::refmodel::own(&x))).map_err(|e| e.to_string()));
+        let returned_at = t0.elapsed().as_secs_f64();
+        let stamps = STAMPS.with(|s| s.borrow_mut().take().map(|x| x.1).unwrap_or_default());
+        let events: Vec<Ev> = log.borrow()[ev_start..].to_vec();
+        let written = io.borrow().written[w_start..].to_vec();
+        let tape_pos_after = io.borrow().pos;
+        let (result, panicked) = match r {
+            Ok(res) => (res, None),
+            Err(p) => (Err(format!("panic: {}", p.message)), Some(p)),
+        };
+        exchanges.push(Exchange { result, panicked, events, stamps, returned_at, written, tape_pos_after });
+    }
+    flipdot_serial::verif_hooks::set_handler(None);
+    SerialRun { exchanges, setup_ok: true }
+}
+
+/// Called by ScriptIo on every read/write when a real-clock run is active.
+pub fn stamp_now() {
+    STAMPS.with(|s| {
+        if let Some((t0, v)) = s.borrow_mut().as_mut() {
+            let t = t0.elapsed().as_secs_f64();
+            v.push(t);
+        }
+    });
 }
